@@ -449,6 +449,13 @@ DoBulk(ev) ==
           ELSE IF ev.mid # ev.before + ev.k THEN {V("C06", "incoming-count-after-copies")}
           ELSE IF ev.after # ev.before THEN {V("C06", "incoming-count-after-releases")} ELSE {})
 
+\* prediction of the store model (behaviours generated by TLC from MddStoreGen)
+DoExpect(ev) ==
+    Query((IF ev.s \in DOMAIN edges THEN EdgeViol(edges[ev.s], ev.res, "HELD") ELSE {V("HELD", "unknown-slot")}) \cup
+          (IF Has(ev.res, "nc") /\ ev.res.nc # ev.nc
+           THEN {V("C11", "node-count-differs-from-store-model"), V("C01", "node-count-differs-from-store-model"),
+                 V("C12", "node-count-differs-from-store-model")} ELSE {}))
+
 DoCache(ev) == Query(IF ev.ok = 0 THEN {V("C07", "cache-maintenance-failed-" \o ev.err)} ELSE {})
 
 \* Reordering a *relation* forest whose policy selects the LEVEL swap method:
@@ -585,6 +592,7 @@ Step ==
          [] ev.e = "ICard"   -> DoICard(ev)
          [] ev.e = "EvalAt"  -> DoEvalAt(ev)
          [] ev.e = "Bulk"    -> DoBulk(ev)
+         [] ev.e = "Expect"  -> DoExpect(ev)
          [] ev.e \in {"ClearCT", "RmStale", "ClearAll"} -> DoCache(ev)
          [] ev.e = "Reorder" -> DoReorder(ev)
          [] ev.e = "Write"   -> DoWrite(ev)
